@@ -80,7 +80,8 @@ struct Gen<'a> {
     rng: &'a mut Rng,
     word: u32,
     tell: u32,
-    aliases: Vec<u32>,
+    /// (id, what the alias currently prints)
+    aliases: Vec<(u32, String)>,
     funcs: Vec<u32>,
     noglob: bool,
     v: String,
@@ -197,15 +198,25 @@ impl Gen<'_> {
                 self.word += 1;
                 let id = self.word;
                 u.lines.push(format!("alias hi{id}='echo hello{id}'"));
-                self.aliases.push(id);
+                self.aliases.push((id, format!("hello{id}")));
             }
             40..=46 if !self.aliases.is_empty() => {
-                let id = *self.rng.pick(&self.aliases);
+                let at = self.rng.below(self.aliases.len() as u32) as usize;
+                let (id, text) = self.aliases[at].clone();
                 let w = self.w();
-                let mut l = format!("hi{id} {w}");
+                let mut l = if self.rng.below(4) == 0 {
+                    // redefined and used on one line: the whole line was parsed
+                    // (and its aliases substituted) before the redefinition ran,
+                    // so this use still has the old meaning, later lines the new
+                    let new = format!("hello{id}r{}", self.w());
+                    self.aliases[at].1 = new.clone();
+                    format!("alias hi{id}='echo {new}'; hi{id} {w}")
+                } else {
+                    format!("hi{id} {w}")
+                };
                 self.maybe_tell(&mut l, &mut u, 0);
                 u.lines.push(l);
-                u.out.push(format!("hello{id} {w}"));
+                u.out.push(format!("{text} {w}"));
             }
             47..=50 => {
                 self.noglob = !self.noglob;
